@@ -18,7 +18,8 @@ func init() {
 			"D2 nothing bypasses the wrapper — every exported *DDSketch method that changes observable state (write-set with the paginated store's sort/compaction routines factored out) or returns a *DDSketch is re-declared by the exact variant. "+
 			"D3 statistics object — Copy and Clear cover all fields (Clear restores the constructor's values), Reweight scales exactly the accumulators, Rescale never touches the count, MergeWith folds every field, Add updates min with < and max with >. "+
 			"D4 clamping table of the exact quantile queries and extreme/count/sum getters read the statistics. "+
-			"D5 statistics blocks: encoder and decoder use the same primitive per flag (shared with C06/C07) and the decoder's final missing-statistics guard dominates success. "+
+			"D5 statistics blocks: encoder and decoder use the same primitive per flag (shared with C06/C07) and the decoder's final guard is the exact decision table: after a successful decode, refusal exactly when the decoded count is 0 and the inner sketch is not empty. "+
+			"D6 accessors — count, sum, emptiness and extremes are read from the statistics ((NaN, error) exactly when empty), zero weight, stores and iteration from the inner sketch; the constructor from parts refuses exactly when the emptiness of the two parts disagrees and otherwise holds exactly the two parts. "+
 			"NOT DECIDED: ulp bound of the compensated sum; exactness of float addition of counts.",
 		"one obligation per wrapper path, per promoted method, per statistics field × operation, per clamping cell; non-trivial = needed a path, mod-set or term evaluation",
 		false, runC10)
@@ -33,6 +34,7 @@ func runC10(c *Ctx) {
 	c10Wrappers(c, a, "C10-D1", "")
 	c10Bypass(c, a)
 	c10StatObject(c, a, "C10-D3", "")
+	c10Accessors(c, a, "C10-D6")
 	c10Clamp(c, a)
 	c10Decode(c, a)
 	c10EncodeGuards(c, a)
@@ -935,40 +937,66 @@ func c10Decode(c *Ctx, a *sketchAnchors) {
 	}
 	c.R.floor(rule, "statistics decoder arms", narm, 4)
 
-	// D5: final guard
+	// D5: final guard — the decision table of the refusal: once the blocks are decoded without error, the result is
+	// an error exactly when the decoded count is 0 AND the inner sketch is not empty (bins without statistics); every
+	// other combination — in particular an input cut between blocks after the Count block — is a success
 	ps2, _ := exec(c, f, nil, 1)
 	bad := ""
-	nSucc := 0
+	nSucc, nGuardErr := 0, 0
 	for _, p := range ps2 {
-		if p.RetNil(0) != 1 {
+		// the inner decode's error, when non-nil, is returned as it is: those paths are C08-D1's business
+		innerErr := false
+		for _, cd := range p.Conds {
+			if x, neq, ok := nilTest(cd.Term); ok && (x.Op == "call" || x.Op == "extract") && neq == cd.Taken {
+				innerErr = true
+			}
+		}
+		if innerErr {
 			continue
 		}
-		nSucc++
-		// success requires: !(Count()==0 && !inner.IsEmpty())
-		okGuard := false
+		cnt, empty := 0, 0 // +1 true, −1 false, 0 not tested on this path
 		for _, cd := range p.Conds {
 			t := cd.Term
 			if t.isBin("==") || t.isBin("!=") {
-				for _, x := range t.Args {
-					x = x.unver()
-					if x.Op == "field" && len(x.Args) == 1 && isRecvField(x.Args[0], a.statField) {
-						okGuard = true
+				for i, x := range t.Args {
+					x = stripConv(x).unver()
+					isCount := x.Op == "field" && len(x.Args) == 1 && isRecvField(x.Args[0].unver(), a.statField) || isMethodCall(x, "Count") && len(x.Args) == 1 && isRecvField(x.Args[0].unver(), a.statField)
+					if isCount && t.Args[1-i].isConst("0") {
+						if cd.Taken == t.isBin("==") {
+							cnt = 1
+						} else {
+							cnt = -1
+						}
 					}
 				}
 			}
+			if isMethodCall(t, "IsEmpty") && len(t.Args) == 1 && (isRecvField(t.Args[0].unver(), a.innerFld) || t.Args[0].isRecv()) {
+				if cd.Taken {
+					empty = 1
+				} else {
+					empty = -1
+				}
+			}
 		}
-		if !okGuard {
-			bad = "success path does not consult the decoded count: [" + p.String() + "]"
-		}
-	}
-	nGuardErr := 0
-	for _, p := range ps2 {
-		if p.RetNil(0) == -1 && p.RetT[0].Op == "call" && strings.HasPrefix(p.RetT[0].Sym, "errors.New") {
+		mustErr := cnt == 1 && empty == -1
+		mustSucceed := cnt == -1 || empty == 1
+		switch {
+		case p.RetNil(0) == 1:
+			nSucc++
+			if !mustSucceed {
+				bad = fmt.Sprintf("success returned with count==0:%+d inner-empty:%+d on [%s]", cnt, empty, p.String())
+			}
+		case p.RetNil(0) == -1:
 			nGuardErr++
+			if !mustErr {
+				bad = fmt.Sprintf("refusal with count==0:%+d inner-empty:%+d on [%s]", cnt, empty, p.String())
+			}
+		default:
+			bad = "a path returns neither nil nor a fresh error: " + describeRet(p)
 		}
 	}
 	c.R.check(bad == "" && nSucc > 0 && nGuardErr > 0, "C10-D5", shortFn(f)+"/missing-statistics-guard", shortFn(f), c.fpos(f),
-		"every success return has consulted the decoded count; a non-empty sketch without statistics is refused", firstNonEmpty(bad, fmt.Sprintf("%d success path(s), %d guard error path(s)", nSucc, nGuardErr)))
+		"after a successful decode: refusal exactly when the decoded count is 0 and the inner sketch is not empty; success otherwise", firstNonEmpty(bad, fmt.Sprintf("%d success path(s), %d refusal path(s)", nSucc, nGuardErr)))
 }
 
 // unitFactorPath: the path has taken `factor == 1` (or left `factor != 1`).
@@ -983,4 +1011,173 @@ func unitFactorPath(p *Path, factor *Term) bool {
 		}
 	}
 	return false
+}
+
+// c10Accessors (D6): what the exact variant answers about itself comes from the right object — count, sum, emptiness
+// and the extremes from the statistics, the zero weight and the two stores from the inner sketch, the iteration from
+// the inner sketch. One obligation per accessor, every path.
+func c10Accessors(c *Ctx, a *sketchAnchors, rule string) {
+	st := c.P.NamedType(pkgStat, "SummaryStatistics")
+	if st == nil {
+		c.R.undecided(rule, "anchor/SummaryStatistics", "", "", "type exists", "unresolved")
+		return
+	}
+	cntF := c.getterField(st, "Count")
+	statVal := func(t *Term, getter string) bool {
+		t = stripConv(t).unver()
+		if isMethodCall(t, getter) && len(t.Args) == 1 && isRecvField(t.Args[0].unver(), a.statField) {
+			return true
+		}
+		// the getter inlined: a term over fields of the statistics object only, equal to the getter's own body
+		if g := c.P.DeclaredMethod(st, getter); g != nil {
+			gp, _ := exec(c, g, nil, 1)
+			if len(gp) == 1 && len(gp[0].RetT) == 1 {
+				want := rewriteTerm(gp[0].RetT[0], func(x *Term) *Term {
+					if x.isParam(0) {
+						return mk("field", a.statField, nil, mk("param", "0", nil))
+					}
+					return nil
+				})
+				return stripVers(t).Key() == stripVers(want).Key()
+			}
+		}
+		return false
+	}
+	n := 0
+	one := func(name, exp string, ok func(p *Path) string) {
+		f := c.P.DeclaredMethod(a.Exact, name)
+		if f == nil {
+			return // promoted from the inner sketch or absent: nothing declared here to check
+		}
+		n++
+		ps, _ := exec(c, f, nil, 1)
+		bad := ""
+		if len(ps) == 0 {
+			bad = "no path"
+		}
+		for _, p := range ps {
+			if b := ok(p); b != "" {
+				bad = b + " on [" + p.String() + "]"
+			}
+		}
+		c.R.check(bad == "", rule, "accessor/"+name, shortFn(f), c.fpos(f), exp, firstNonEmpty(bad, fmt.Sprintf("%d path(s)", len(ps))))
+	}
+	retIs := func(p *Path, pred func(t *Term) bool) string {
+		if len(p.RetT) < 1 || !pred(p.RetT[0]) {
+			return "returns " + describeRet(p)
+		}
+		return ""
+	}
+	one("GetCount", "the statistics' count", func(p *Path) string { return retIs(p, func(t *Term) bool { return statVal(t, "Count") }) })
+	one("GetSum", "the statistics' sum", func(p *Path) string { return retIs(p, func(t *Term) bool { return statVal(t, "Sum") }) })
+	one("GetZeroCount", "the inner sketch's zero weight", func(p *Path) string {
+		return retIs(p, func(t *Term) bool { return isRecvField(t.unver(), a.zeroField, a.innerFld) })
+	})
+	one("GetPositiveValueStore", "the inner sketch's positive store", func(p *Path) string {
+		return retIs(p, func(t *Term) bool { return isRecvField(stripConv(t).unver(), a.posField, a.innerFld) })
+	})
+	one("GetNegativeValueStore", "the inner sketch's negative store", func(p *Path) string {
+		return retIs(p, func(t *Term) bool { return isRecvField(stripConv(t).unver(), a.negField, a.innerFld) })
+	})
+	one("IsEmpty", "count == 0 of the statistics (or the inner sketch's emptiness)", func(p *Path) string {
+		return retIs(p, func(t *Term) bool {
+			t = t.unver()
+			if t.isBin("==") {
+				return statVal(t.Args[0], "Count") && t.Args[1].isConst("0") || statVal(t.Args[1], "Count") && t.Args[0].isConst("0")
+			}
+			return isMethodCall(t, "IsEmpty") && len(t.Args) == 1 && isRecvField(t.Args[0].unver(), a.innerFld)
+		})
+	})
+	_ = cntF
+	for _, side := range []struct{ name, getter string }{{"GetMinValue", "Min"}, {"GetMaxValue", "Max"}} {
+		side := side
+		one(side.name, "(NaN, error) exactly when empty, otherwise the statistics' "+side.getter+" and nil", func(p *Path) string {
+			empty := 0
+			for _, cd := range p.Conds {
+				t := cd.Term
+				if isMethodCall(t, "IsEmpty") && len(t.Args) == 1 && (isRecvField(t.Args[0].unver(), a.innerFld) || t.Args[0].isRecv()) {
+					empty = map[bool]int{true: 1, false: -1}[cd.Taken]
+				}
+				if (t.isBin("==") || t.isBin("!=")) && (statVal(t.Args[0], "Count") && t.Args[1].isConst("0") || statVal(t.Args[1], "Count") && t.Args[0].isConst("0")) {
+					empty = map[bool]int{true: 1, false: -1}[cd.Taken == t.isBin("==")]
+				}
+			}
+			if len(p.RetT) != 2 {
+				return "does not return (value, error)"
+			}
+			switch empty {
+			case 1:
+				if p.RetNil(1) != -1 {
+					return "empty sketch answered without an error"
+				}
+			case -1:
+				if p.RetNil(1) != 1 || !statVal(p.RetT[0], side.getter) {
+					return "non-empty sketch answered with " + describeRet(p)
+				}
+			default:
+				return "emptiness not consulted"
+			}
+			return ""
+		})
+	}
+	one("ForEach", "the inner sketch's ForEach with the caller's callback, on every path", func(p *Path) string {
+		for _, e := range p.Calls() {
+			if isMethodCall(e.Call, "ForEach") && len(e.Call.Args) == 2 && isRecvField(e.Call.Args[0].unver(), a.innerFld) && e.Call.Args[1].isParam(1) {
+				return ""
+			}
+		}
+		return "the inner iteration is not called"
+	})
+	c.R.floor(rule, "accessors declared on the exact variant", n, 8)
+	// the constructor from parts: refused exactly when the emptiness of the sketch and of the statistics disagree;
+	// otherwise the result holds exactly the two parts
+	if f := c.P.Func(pkgSketch, "NewDDSketchWithExactSummaryStatisticsFromData"); f != nil {
+		ps, _ := exec(c, f, nil, 1)
+		bad := ""
+		nOK, nErr := 0, 0
+		for _, p := range ps {
+			// the one decision: IsEmpty(sketch) != (Count(statistics) == 0)
+			dis := 0 // +1 the two disagree, −1 they agree
+			for _, cd := range p.Conds {
+				t := cd.Term
+				if !(t.isBin("!=") || t.isBin("==")) {
+					continue
+				}
+				isE := func(x *Term) bool { return isMethodCall(x, "IsEmpty") && len(x.Args) == 1 && x.Args[0].isParam(0) }
+				isZ := func(x *Term) bool {
+					if !x.isBin("==") {
+						return false
+					}
+					cnt := func(y *Term) bool {
+						y = stripConv(y).unver()
+						return y.Op == "field" && y.Sym == cntF && y.Args[0].isParam(1) || isMethodCall(y, "Count") && y.Args[0].isParam(1)
+					}
+					return cnt(x.Args[0]) && x.Args[1].isConst("0") || cnt(x.Args[1]) && x.Args[0].isConst("0")
+				}
+				if isE(t.Args[0]) && isZ(t.Args[1]) || isE(t.Args[1]) && isZ(t.Args[0]) {
+					if cd.Taken == t.isBin("!=") {
+						dis = 1
+					} else {
+						dis = -1
+					}
+				}
+			}
+			switch {
+			case dis == 1:
+				nErr++
+				if p.RetNil(1) != -1 || p.RetT[0].Op != "nil" {
+					bad = "disagreeing parts accepted: " + describeRet(p)
+				}
+			case dis == -1:
+				nOK++
+				fl := resultFields(p)
+				if p.RetNil(1) != 1 || fl[a.innerFld] == nil || !fl[a.innerFld].isParam(0) || fl[a.statField] == nil || !fl[a.statField].isParam(1) {
+					bad = "agreeing parts: " + describeRet(p) + fmt.Sprintf(" inner=%v statistics=%v", fl[a.innerFld], fl[a.statField])
+				}
+			default:
+				bad = "a path does not compare the emptiness of the two parts: [" + p.String() + "]"
+			}
+		}
+		c.R.check(bad == "" && nOK > 0 && nErr > 0, rule, "constructor-from-parts", shortFn(f), c.fpos(f), "refused exactly when sketch.IsEmpty() != (statistics.Count() == 0); otherwise the result holds the two parts", firstNonEmpty(bad, fmt.Sprintf("%d accepting / %d refusing path(s)", nOK, nErr)))
+	}
 }
